@@ -930,7 +930,7 @@ THEOREMS = {
     'C12': ['C12.sort_perm_invariant', 'C12.chkSort_perm_invariant', 'C12.step_spec', 'C12.run_inv',
             'C12.history_independent', 'C12.reverse_involutive'],
     'C20': ['C20.tm_colons_ignored', 'C20.tm_same_digits', 'C20.tm_instances', 'C20.tm_malformed',
-            'C20.tm_two_digits', 'C20.tm_four_digits', 'C20.time_fns_identical', 'C20.dim_info_axes',
+            'C20.tm_two_digits', 'C20.tm_four_digits', 'C20.tm_six_plus', 'C20.time_fns_identical', 'C20.dim_info_axes',
             'C20.slice_times_follow_data', 'C20.reversal_index'],
 }
 
